@@ -219,6 +219,7 @@ def run(ctx) -> None:
         except KeyError:
             pass
         d = SchemaDeriver(prog, semver)
+        d.canon = ctx.canon
         root_cls = None
         for mn in ("hugr._serialization.serial_hugr", "hugr._serialization.testing_hugr"):
             if r in prog.module(mn).classes:
@@ -254,7 +255,9 @@ def run(ctx) -> None:
             ctx.check(not diffs, "C17.R1", inst, c.module.path if c else fname, c.node.lineno if c else 1,
                       f"model {name} and {p}_{version}.json disagree: " + "; ".join(diffs[:4]),
                       expected=json.dumps(pub_defs[name])[:500], found=json.dumps(mine[name])[:500])
-    r3_no_hidden_acceptance_logic(ctx, SchemaDeriver(prog, None))
+    d3 = SchemaDeriver(prog, None)
+    d3.canon = ctx.canon
+    r3_no_hidden_acceptance_logic(ctx, d3)
     r4_config_plumbing(ctx)
     ctx.stats["C17 definitions compared"] = total
     ctx.stats["C17 files"] = sorted(f"{p}_{version}.json" for p, _, _ in files)
@@ -354,7 +357,7 @@ def r3_no_hidden_acceptance_logic(ctx, d) -> None:
                 for deco in fn.decorator_list:
                     if u(deco).split("(")[0].split(".")[-1] in bad_decos:
                         probs.append((fn, f"@{u(deco)[:40]} on {name}"))
-            cfg = c.class_assigns.get("model_config")
+            cfg = d.expand(m, c.class_assigns.get("model_config"))
             if isinstance(cfg, ast.Call):
                 for kw in cfg.keywords:
                     if kw.arg not in ("title", "json_schema_extra"):
@@ -376,7 +379,7 @@ def r3_no_hidden_acceptance_logic(ctx, d) -> None:
     # a `required` override in json_schema_extra only edits the schema: the decoder must require the field too
     for m in d.mods.values():
         for c in m.classes.values():
-            cfg = c.class_assigns.get("model_config")
+            cfg = d.expand(m, c.class_assigns.get("model_config"))
             if not (d.is_model(c) and isinstance(cfg, ast.Call)):
                 continue
             extra = next((kw.value for kw in cfg.keywords if kw.arg == "json_schema_extra"), None)
